@@ -169,6 +169,8 @@ pub struct FunCfg {
     pub divrem_pct: u32,
     /// effects (print, calls of effectful definitions) inside operator operands and call/constructor arguments of integer or data type: evaluated left to right
     pub eff_args_pct: u32,
+    /// effects inside codata-typed bound terms and arguments (evaluated by name: at every use)
+    pub eff_codata_pct: u32,
 }
 
 impl FunCfg {
@@ -186,6 +188,7 @@ impl FunCfg {
             type_instances: 1 + rng.below(4),
             divrem_pct: [0, 10, 25][rng.below(3)],
             eff_args_pct: [0, 0, 20, 50][rng.below(4)],
+            eff_codata_pct: [0, 0, 25, 60][rng.below(4)],
         }
     }
 }
@@ -506,6 +509,8 @@ impl<'a> G<'a> {
                 es.push(E::Lit(self.rng.range(0, 6)));
             } else if !pure_only && !self.is_codata(pt) && self.rng.pct(self.cfg.eff_args_pct) {
                 es.push(self.eff(pt, sc, depth + 2));
+            } else if !pure_only && self.is_codata(pt) && self.rng.pct(self.cfg.eff_codata_pct) {
+                es.push(self.eff(pt, sc, depth + 2));
             } else {
                 es.push(self.pure(pt, sc, depth + 1));
             }
@@ -553,7 +558,13 @@ impl<'a> G<'a> {
             // let with possibly effectful bound term (not for codata: by-name)
             let x = self.fresh();
             let bt = if self.rng.pct(55) { T::I } else { self.random_type(true, depth) };
-            let b = if self.is_codata(&bt) || self.rng.pct(60) { self.pure(&bt, sc, depth + 1) } else { self.eff(&bt, sc, depth + 2) };
+            let b = if self.is_codata(&bt) {
+                if self.rng.pct(self.cfg.eff_codata_pct) { self.eff(&bt, sc, depth + 2) } else { self.pure(&bt, sc, depth + 1) }
+            } else if self.rng.pct(60) {
+                self.pure(&bt, sc, depth + 1)
+            } else {
+                self.eff(&bt, sc, depth + 2)
+            };
             let mut sc2 = Scope { vars: sc.vars.clone() };
             sc2.vars.push((x, bt.clone(), false));
             let body = self.eff(t, &sc2, depth + 1);
